@@ -39,6 +39,17 @@ type GhostStmt struct {
 	Expr ast.Expr
 }
 
+// StmtRule is a proof step anchored after the statement with the given source text:
+//   //@ after <statement text> :: leftpad(dst, src)
+//   //@ after <statement text> :: trust <label>: <formula>
+type StmtRule struct {
+	Text    string
+	Rule    string // leftpad | trust | assert
+	Label   string
+	Args    []ast.Expr
+	Used    bool
+}
+
 type GhostDecl struct {
 	Name string
 	Sort *Sort
@@ -49,6 +60,8 @@ type Macro struct {
 	Name   string
 	Params []string
 	Body   ast.Expr
+	Opaque *Sort // non-nil: calls evaluate to an uninterpreted application; the definition is
+	// available only where a `reveal` proof step asks for it
 }
 
 type Contract struct {
@@ -65,6 +78,7 @@ type Contract struct {
 	ReturnsIfVal []ast.Expr
 	ReturnsElse  ast.Expr
 	UseAxioms    []string
+	StmtRules    []StmtRule
 	Loops     map[int]*LoopContract
 	Inline    bool
 	Assume    bool
@@ -326,9 +340,21 @@ func (eng *Engine) loadContractFile(file string) error {
 		}
 		if kw == "define" {
 			// define name(p1,p2) = expr
+			m := &Macro{}
+			if strings.HasPrefix(rest, "opaque ") {
+				f := strings.Fields(rest)
+				switch f[1] {
+				case "Int":
+					m.Opaque = IntSort
+				case "Bool":
+					m.Opaque = BoolSort
+				default:
+					return errf("define opaque Int|Bool name(...) = ...")
+				}
+				rest = strings.TrimSpace(rest[strings.Index(rest, f[1])+len(f[1]):])
+			}
 			eq := strings.Index(rest, "=")
 			head := strings.TrimSpace(rest[:eq])
-			m := &Macro{}
 			if i := strings.Index(head, "("); i >= 0 {
 				m.Name = strings.TrimSpace(head[:i])
 				for _, p := range strings.Split(strings.TrimSuffix(head[i+1:], ")"), ",") {
@@ -363,6 +389,35 @@ func (eng *Engine) loadContractFile(file string) error {
 			}
 		case "inline":
 			cur.Inline = true
+		case "after":
+			i := strings.Index(rest, " :: ")
+			if i < 0 {
+				return errf("after <statement> :: <rule>")
+			}
+			r := StmtRule{Text: normSpace(rest[:i])}
+			body := strings.TrimSpace(rest[i+4:])
+			switch {
+			case strings.HasPrefix(body, "trust "), strings.HasPrefix(body, "assert "):
+				r.Rule = strings.Fields(body)[0]
+				c, err := parseClause(strings.TrimSpace(body[len(r.Rule):]))
+				if err != nil {
+					return errf("%v", err)
+				}
+				r.Label = c.Label
+				r.Args = []ast.Expr{c.Expr}
+			default:
+				e, err := parseSpecExpr(body)
+				if err != nil {
+					return errf("%v", err)
+				}
+				call, ok := e.(*ast.CallExpr)
+				if !ok {
+					return errf("rule application expected")
+				}
+				r.Rule = call.Fun.(*ast.Ident).Name
+				r.Args = call.Args
+			}
+			cur.StmtRules = append(cur.StmtRules, r)
 		case "use_axiom":
 			cur.UseAxioms = append(cur.UseAxioms, strings.Fields(strings.ReplaceAll(rest, ",", " "))...)
 		case "opaque_products":
@@ -498,7 +553,122 @@ func (ex *exec) loopContract(fr *frame, ord int) *LoopContract {
 	return ct.Loops[ord]
 }
 
-func (ex *exec) applyGhost(st *State, s ast.Stmt, when string) {}
+func normSpace(s string) string { return strings.Join(strings.Fields(s), " ") }
+
+var srcCache = map[string][]byte{}
+
+func (ex *exec) stmtText(s ast.Stmt) string {
+	f := ex.eng.fset.File(s.Pos())
+	if f == nil {
+		return ""
+	}
+	data, ok := srcCache[f.Name()]
+	if !ok {
+		data, _ = os.ReadFile(f.Name())
+		srcCache[f.Name()] = data
+	}
+	a, b := f.Offset(s.Pos()), f.Offset(s.End())
+	if a < 0 || b > len(data) || a > b {
+		return ""
+	}
+	return normSpace(string(data[a:b]))
+}
+
+// applyGhost runs the proof steps anchored after statement s.
+func (ex *exec) applyGhost(st *State, s ast.Stmt, when string) {
+	if when != "after" || len(ex.frames) == 0 {
+		return
+	}
+	fr := ex.fr()
+	ct := ex.eng.contracts[fr.fi.Key]
+	if ct == nil || len(ct.StmtRules) == 0 {
+		return
+	}
+	switch s.(type) {
+	case *ast.BlockStmt, *ast.IfStmt, *ast.ForStmt, *ast.RangeStmt, *ast.SwitchStmt:
+		return
+	}
+	txt := ex.stmtText(s)
+	for i := range ct.StmtRules {
+		r := &ct.StmtRules[i]
+		if r.Text != txt {
+			continue
+		}
+		r.Used = true
+		switch r.Rule {
+		case "trust":
+			env := ex.newSpecEnv(st, fr, nil)
+			env.assume = true
+			st.assume(env.toBool(env.eval(r.Args[0])))
+			ex.trustedClauses[fr.fi.Key+"/"+r.Label+": "+exprString(r.Args[0])] = true
+			ex.rewriteByEquation(st, fr, r.Args[0])
+		case "assert":
+			env := ex.newSpecEnv(st, fr, nil)
+			ex.oblige(st, "assert", r.Label, env.toBool(env.eval(r.Args[0])), s.Pos())
+			ex.rewriteByEquation(st, fr, r.Args[0])
+		case "leftpad":
+			ex.ruleLeftPad(st, fr, r, s.Pos())
+		case "reveal":
+			// reveal f(args): the definition of the opaque spec function at these arguments
+			env := ex.newSpecEnv(st, fr, nil)
+			ap := env.eval(r.Args[0]).(*Term)
+			env2 := ex.newSpecEnv(st, fr, nil)
+			env2.revealing = true
+			body := env2.eval(r.Args[0]).(*Term)
+			st.assume(Eq(ap, body))
+		default:
+			ex.fail(s.Pos(), "unknown proof rule %s", r.Rule)
+		}
+	}
+}
+
+// rewriteByEquation: an established equation `lhs == rhs` is used as a left-to-right
+// rewrite of the values in the state (the equation itself stays in the path condition).
+func (ex *exec) rewriteByEquation(st *State, fr *frame, e ast.Expr) {
+	be, ok := unparen(e).(*ast.BinaryExpr)
+	if !ok || be.Op != token.EQL {
+		return
+	}
+	env := ex.newSpecEnv(st, fr, nil)
+	l, ok1 := env.eval(be.X).(*Term)
+	r, ok2 := env.eval(be.Y).(*Term)
+	if !ok1 || !ok2 || l.Sort != r.Sort || l.IsConst() || l == r || l.Sort.K == KArr {
+		return
+	}
+	st.substAll(map[*Term]*Term{l: r})
+}
+
+// ruleLeftPad proves be(dst) == be(src) where dst (constant length n <= 64) holds src
+// right-aligned after leading zero bytes, by a complete case split on len(src) in 0..n.
+// The instances be(src) == sum src[i]*256^(L-1-i) used for each L are the definition of be.
+func (ex *exec) ruleLeftPad(st *State, fr *frame, r *StmtRule, pos token.Pos) {
+	env := ex.newSpecEnv(st, fr, nil)
+	dst, ok1 := env.eval(r.Args[0]).(*Slice)
+	src, ok2 := env.eval(r.Args[1]).(*Slice)
+	if !ok1 || !ok2 || !dst.Len.IsConst() || dst.Len.Val.Int64() > 64 || ex.mode != ModeInt {
+		ex.fail(pos, "leftpad(dst, src): dst must be a slice of constant length <= 64 (int mode)")
+	}
+	n := dst.Len.Val.Int64()
+	poly := func(s *Slice, l int64) *Term {
+		acc := IntC64(0)
+		for i := int64(0); i < l; i++ {
+			b := env.load(s.Base.with(Sel{Field: -1, Idx: ex.add(s.Off, ex.idxConst(i))})).(*Term)
+			acc = IntAdd(IntScale(acc, big.NewInt(256)), b)
+		}
+		return acc
+	}
+	ex.oblige(st, "leftpad", "len", And(IntLe(IntC64(0), src.Len), IntLe(src.Len, IntC64(n))), pos)
+	pd := poly(dst, n)
+	srcBe := env.beValue(src).(*Term)
+	for l := int64(0); l <= n; l++ {
+		c := st.clone()
+		c.assume(Eq(src.Len, IntC64(l)))
+		ex.oblige(c, "leftpad", fmt.Sprintf("case%d", l), Eq(pd, poly(src, l)), pos)
+		// definitional instance of be at this length
+		st.assume(Implies(Eq(src.Len, IntC64(l)), Eq(srcBe, poly(src, l))))
+	}
+	st.assume(Eq(pd, srcBe))
+}
 
 // ---------- spec evaluation ----------
 
@@ -511,6 +681,8 @@ type specEnv struct {
 	locals map[string]*types.Var
 	sigOverride *types.Signature
 	noUnfold    bool
+	beExpand    bool
+	revealing   bool
 	assume      bool                  // evaluating a hypothesis: existentials are skolemised
 	witness     map[string][]ast.Expr // evaluating a goal: candidates for existential variables
 }
@@ -756,7 +928,20 @@ func (env *specEnv) eval(e ast.Expr) Value {
 		case *Slice:
 			sv = b
 		default:
-			env.fail("slice of %T", base)
+			// slicing an array variable / pointer to array
+			p, isP := base.(*Ptr)
+			if !isP {
+				p = env.loc(x.X)
+			}
+			if p == nil || p.Obj == nil {
+				env.fail("slice of %T", base)
+			}
+			at, ok := ex.typeAt(p.Obj.T, p.Path).Underlying().(*types.Array)
+			if !ok {
+				env.fail("slice of non-array location")
+			}
+			n := ex.idxConst(at.Len())
+			sv = &Slice{Base: p, Off: ex.idxConst(0), Len: n, Cap: n, Nil: False, Elem: at.Elem()}
 		}
 		lo := ex.idxConst(0)
 		hi := sv.Len
@@ -1420,6 +1605,56 @@ func (env *specEnv) call(c *ast.CallExpr) Value {
 			alts = append(alts, sub.toBool(sub.eval(c.Args[1])))
 		}
 		return Or(alts...)
+	case "hsapp":
+		// hsapp(h, data): the stream h extended by the bytes of data.  Pieces of constant length
+		// (<= 64) are identified by content (their big-endian value and length), longer or
+		// symbolic-length pieces by the array they live in.
+		h := env.flatten(arg(0))[0]
+		sl, ok := arg(1).(*Slice)
+		if !ok {
+			env.fail("hsapp(h, data): data must be a byte slice")
+		}
+		if sl.Len.IsConst() && sl.Len.Val.Int64() <= 64 && ex.mode == ModeInt {
+			if sl.Len.Val.Sign() == 0 {
+				return UF("hs_appv", IntSort, h, IntC64(0), IntC64(0))
+			}
+			return UF("hs_appv", IntSort, h, env.beValue(sl).(*Term), sl.Len)
+		}
+		if sl.Base.Obj == nil {
+			return UF("hs_appv", IntSort, h, IntC64(0), IntC64(0))
+		}
+		arr, ok := env.load(sl.Base).(*Term)
+		if !ok {
+			env.fail("hsapp of non-scalar slice")
+		}
+		return UF("hs_app", IntSort, h, arr, sl.Off, sl.Len)
+	case "bytes":
+		// bytes(b0, b1, ...): a byte string given by its elements (array written from index 0)
+		var arr *Term
+		if ex.mode == ModeInt {
+			arr = ConstArr(ArrSortR(IntSort, IntSort, big.NewInt(0), big.NewInt(255)), IntC64(0))
+		} else {
+			arr = ConstArr(ArrSort(BVSort(64), BVSort(8)), BVC64(8, 0))
+		}
+		for i := range c.Args {
+			v := arg(i)
+			var t *Term
+			switch x := v.(type) {
+			case *Term:
+				t = x
+			case *UConst:
+				if ex.mode == ModeInt {
+					t = IntC(x.V.(*big.Int))
+				} else {
+					t = BVC(8, x.V.(*big.Int))
+				}
+			}
+			arr = Store(arr, ex.idxConst(int64(i)), t)
+		}
+		o := ex.newObj(nil, "bytes", true)
+		env.st.heap[o] = arr
+		n := ex.idxConst(int64(len(c.Args)))
+		return &Slice{Base: &Ptr{Obj: o}, Off: ex.idxConst(0), Len: n, Cap: n, Nil: False}
 	case "be":
 		// big-endian value of a byte string
 		return env.beValue(arg(0))
@@ -1487,6 +1722,12 @@ func (env *specEnv) call(c *ast.CallExpr) Value {
 	}
 	if gd, ok := ex.eng.ghosts[name]; ok && !gd.Var {
 		pv, ok := arg(0).(*Ptr)
+		if !ok {
+			// a variable of struct type denotes its own location
+			if l := env.loc(c.Args[0]); l != nil {
+				pv, ok = l, true
+			}
+		}
 		if !ok || pv.Obj == nil {
 			// ghost field of a nil object: arbitrary
 			return Fresh("ghost."+name+"(nil)", gd.Sort)
@@ -1495,13 +1736,26 @@ func (env *specEnv) call(c *ast.CallExpr) Value {
 		if v, ok := env.st.ghost[key]; ok {
 			return v
 		}
-		return Var(fmt.Sprintf("ghost.%s@v%d", key, env.st.gver[pv.Obj]), gd.Sort)
+		gv := Var(fmt.Sprintf("ghost.%s@v%d", key, env.st.gver[pv.Obj]), gd.Sort)
+		if freshBorn[gv] == 0 {
+			freshSerial++
+			freshBorn[gv] = freshSerial
+		}
+		return gv
 	}
 	if m, ok := ex.eng.macros[name]; ok {
 		if len(m.Params) != len(c.Args) {
 			env.fail("macro %s expects %d arguments", name, len(m.Params))
 		}
+		if m.Opaque != nil && !env.revealing {
+			var args []*Term
+			for i := range c.Args {
+				args = append(args, env.flatten(arg(i))...)
+			}
+			return UF(name, m.Opaque, args...)
+		}
 		sub := *env
+		sub.revealing = false
 		sub.names = map[string]Value{}
 		for k, v := range env.names {
 			sub.names[k] = v
@@ -1706,6 +1960,16 @@ func (env *specEnv) beValue(v Value) Value {
 				} else {
 					acc = Concat(acc, b)
 				}
+			}
+		}
+		if ex.mode == ModeInt && !env.beExpand {
+			// keep the value as one atom be(array, offset, n) and give its definition as a fact:
+			// products with other unknowns then stay single monomials
+			if arr, ok := env.load(sl.Base).(*Term); ok && arr.Sort.K == KArr {
+				t := UF("be", IntSort, arr, sl.Off, sl.Len)
+				SetRange(t, big.NewInt(0), new(big.Int).Sub(two(uint(8*n)), big.NewInt(1)))
+				env.st.assume(Eq(t, acc))
+				return t
 			}
 		}
 		return acc
